@@ -232,7 +232,8 @@ Fixpoint LevOK (b : bufs) (U : Z) (prev : dict) (Lpos : Z) (ds : list dict) : Pr
          zget (ids b) (Lm + Z.of_nat k - U) 0 = last (fst e) 0 /\
          zget (logps b) (Lm + Z.of_nat k) NaN = fst (snd e) /\
          (rest <> [] -> zget (logbs b) (Lm + Z.of_nat k) NaN = snd (snd e))) /\
-      (Lm + zlen lv <= zlen (logps b) /\ (rest <> [] -> Lm + zlen lv < zlen (offsets b))) /\
+      (Lm + zlen lv <= zlen (logps b) /\ (rest <> [] -> Lm + zlen lv < zlen (offsets b)) /\
+       (rest = [] -> zlen (offsets b) <= Lm)) /\
       LevOK b U lv Lm rest
   end.
 
@@ -286,3 +287,135 @@ Qed.
 Lemma nth_map_error {A B} (f : A -> B) l k e d : nth_error l k = Some e -> nth k (map f l) d = f e.
 Proof. intros H. apply nth_error_nth. rewrite nth_error_map, H. reflexivity. Qed.
 
+Lemma build_levels_spec U nuni O I P (HU : U = nuni + 1) (HI : I = P - U) :
+  forall ds n prev Lpos parents ls st,
+    chain_wf nuni n prev ds -> sorted_level n prev -> prev <> [] -> 0 <= Lpos ->
+    st_ok O I P Lpos (Lpos + zlen prev) st -> parents_ok parents prev Lpos ls ->
+    nuni <= Lpos + zlen prev ->
+    (ds <> [] -> Lpos + zlen prev + tot ds = P /\ O = P - zlen (last ds [])) ->
+    exists st', build_levels U ds parents ls st = Some st' /\
+      LevOK (bufs_of st') U prev Lpos ds /\
+      zlen (b_offs st') = O /\ zlen (b_ids st') = I /\ zlen (b_lps st') = P /\ zlen (b_lbs st') = O /\
+      (forall q, q < Lpos -> zget (b_offs st') q 0 = zget (b_offs st) q 0) /\
+      (forall q, q < Lpos + zlen prev + 1 - U -> zget (b_ids st') q 0 = zget (b_ids st) q 0) /\
+      (forall q, q < Lpos + zlen prev -> zget (b_lps st') q NaN = zget (b_lps st) q NaN) /\
+      (forall q, q < Lpos + zlen prev -> zget (b_lbs st') q NaN = zget (b_lbs st) q NaN).
+Proof.
+  induction ds as [|d rest IH]; intros n prev Lpos parents ls st Hwf Hprev Hpne HL Hst Hpar Hnuni Hsz.
+  - exists st. destruct Hst. cbn [build_levels LevOK]. repeat split; auto.
+  - destruct Hwf as [Hwf Hchain]. destruct (Hsz ltac:(discriminate)) as [HP HO]. clear Hsz.
+    cbn [tot] in HP.
+    set (start := Lpos + zlen prev) in *. set (lv := sort_rev d).
+    set (ps := ppos (map fst prev) Lpos lv).
+    assert (Hc : zlen lv = zlen d) by (unfold zlen, lv; rewrite sort_rev_length; reflexivity).
+    assert (Hc1 : 1 <= zlen d).
+    { pose proof (lw_ne _ _ _ _ Hwf). unfold zlen. destruct d; [congruence|cbn [length]; lia]. }
+    assert (Hp1 : 1 <= zlen prev) by (unfold zlen; destruct prev; [congruence|cbn [length]; lia]).
+    assert (Htr : 0 <= tot rest) by (clear; induction rest as [|x r IHr]; cbn [tot]; unfold zlen in *; lia).
+    assert (HstO : start < O /\ (rest <> [] -> start + 1 + zlen d < O) /\ (rest = [] -> O = start + 1)).
+    { destruct rest as [|d' r'].
+      - cbn [last tot] in *. split; [lia|]. split; [congruence|intros _; lia].
+      - rewrite !last_cons in HO. pose proof (tot_last (d' :: r') ltac:(discriminate)) as Ht.
+        rewrite last_cons in Ht. unfold dict in *. split; [lia|]. split; [intros _; lia|discriminate]. }
+    destruct HstO as (HstO & HstO' & HstO'').
+    destruct Hst as [Ha Hlo Hli Hlp Hlb Hz Hnz].
+    (* every entry finds its parent *)
+    assert (Hfound : forall e, In e lv -> dget parents (removelast (fst e)) <> None).
+    { intros e He. destruct (sort_rev_parent _ _ _ _ e Hwf He) as [Hin _].
+      apply In_nth_error in Hin as [i Hi]. rewrite (Hpar i _ Hi). discriminate. }
+    assert (Hps : map (ppar parents ls) lv = ps).
+    { unfold ps, ppos. apply map_ext_in. intros e He.
+      destruct (sort_rev_parent _ _ _ _ e Hwf He) as [Hin _].
+      unfold ppar. rewrite (Hpar _ _ (kindex_nth _ _ Hin)). lia. }
+    rewrite build_levels_step by assumption.
+    set (il := match rest with [] => true | _ => false end).
+    set (st1 := level_result U il d parents ls st).
+    (* the offsets after this level *)
+    assert (Hoffs : forall j, zget (b_offs st1) j 0 =
+              if (Lpos <=? j) && (j <=? start) then start + 1 + count_lt ps j - j else zget (b_offs st) j 0).
+    { intros j. unfold st1, level_result. cbn [b_offs]. fold lv. rewrite Hps, Ha.
+      apply level_offs_spec; try lia.
+      - unfold ps. intros E. apply (f_equal (@length Z)) in E. rewrite ppos_length in E.
+        unfold zlen in Hc, Hc1. cbn [length] in E. lia.
+      - apply (ppos_nondecr nuni n prev d Lpos Hprev Hwf).
+      - apply (ppos_range nuni n prev d Lpos Hwf). }
+    assert (Hcnt : count_lt ps start = zlen d).
+    { rewrite count_lt_all.
+      - unfold zlen, ps. rewrite ppos_length. exact Hc.
+      - pose proof (ppos_range nuni n prev d Lpos Hwf) as Hr. fold lv in Hr. fold ps in Hr.
+        rewrite Forall_forall in *. intros p Hp. specialize (Hr p Hp). lia. }
+    assert (Hlen1 : zlen (b_offs st1) = O /\ zlen (b_ids st1) = I /\ zlen (b_lps st1) = P /\ zlen (b_lbs st1) = O).
+    { unfold st1, level_result, zlen. cbn [b_offs b_ids b_lps b_lbs].
+      rewrite level_offs_length, !fill_length, pyset_length. destruct il; rewrite ?fill_length, pyset_length; auto. }
+    destruct Hlen1 as (Hlo1 & Hli1 & Hlp1 & Hlb1).
+    assert (Hlvne : lv <> []) by (intros E; rewrite E in Hc; unfold zlen in Hc, Hc1; cbn in Hc; lia).
+    assert (Hlvs : sorted_level (S n) lv) by (apply (sort_rev_level nuni n (map fst prev) d Hwf)).
+    destruct (IH (S n) lv (start + 1) (children_from lv 1) (b_alloc st) st1) as (st' & Hb & HLev & Hlo' & Hli' & Hlp' & Hlb' & Fo & Fi & Fp & Fb);
+      try assumption; try lia.
+    { constructor; try assumption.
+      - unfold st1, level_result. cbn [b_alloc]. fold lv. lia.
+      - intros q Hq. rewrite Hoffs. replace ((Lpos <=? q) && (q <=? start)) with false by lia. apply Hz. lia.
+      - right. replace (start + 1 - 1) with start by lia. rewrite Hoffs.
+        replace ((Lpos <=? start) && (start <=? start)) with true by lia. lia. }
+    { intros i k Hi. rewrite nth_error_map in Hi. destruct (nth_error lv i) as [e|] eqn:Ei; [|discriminate].
+      cbn in Hi. injection Hi as <-.
+      rewrite (children_from_dget lv 1 i e (sorted_NoDup lv (proj1 Hlvs)) Ei). f_equal. lia. }
+    { intros Hr. rewrite Hc. split; [lia|]. rewrite HO, last_cons.
+      destruct rest as [|d' r']; [congruence|]. rewrite !last_cons. reflexivity. }
+    exists st'. split; [exact Hb|].
+    assert (Hfill_pre : 0 <= start + 1 - U /\ start + 1 + zlen lv <= P) by lia.
+    split; [|repeat split; try assumption].
+    + cbn [LevOK]. fold lv. fold start. fold ps. split; [|split; [|split]].
+      * intros j Hj. cbn [bufs_of offsets]. rewrite Fo by lia. rewrite Hoffs.
+        replace ((Lpos <=? j) && (j <=? start)) with true by lia. reflexivity.
+      * intros k e Hk.
+        assert (Hklt : Z.of_nat k < zlen lv).
+        { unfold zlen. assert (k < length lv)%nat; [|lia]. apply nth_error_Some. rewrite Hk. discriminate. }
+        cbn [bufs_of ids logps logbs]. split; [|split].
+        -- rewrite Fi by lia. unfold st1, level_result. cbn [b_ids]. fold lv.
+           rewrite zget_fill by (unfold zlen in *; rewrite ?map_length; lia).
+           replace ((b_alloc st + 1 - U <=? start + 1 + Z.of_nat k - U) &&
+                    (start + 1 + Z.of_nat k - U <? b_alloc st + 1 - U + zlen (map (fun e0 => last (fst e0) 0) lv)))
+             with true by (unfold zlen in *; rewrite map_length; lia).
+           replace (Z.to_nat (start + 1 + Z.of_nat k - U - (b_alloc st + 1 - U))) with k by lia.
+           apply (nth_map_error (fun e0 => last (fst e0) 0)). exact Hk.
+        -- rewrite Fp by lia. unfold st1, level_result. cbn [b_lps]. fold lv.
+           rewrite zget_fill by (unfold zlen in *; rewrite ?map_length, ?pyset_length; lia).
+           replace ((b_alloc st + 1 <=? start + 1 + Z.of_nat k) &&
+                    (start + 1 + Z.of_nat k <? b_alloc st + 1 + zlen (map (fun e0 => fst (snd e0)) lv)))
+             with true by (unfold zlen in *; rewrite map_length; lia).
+           replace (Z.to_nat (start + 1 + Z.of_nat k - (b_alloc st + 1))) with k by lia.
+           apply (nth_map_error (fun e0 => fst (snd e0))). exact Hk.
+        -- intros Hr. specialize (HstO' Hr). rewrite Fb by lia. unfold st1, level_result. cbn [b_lbs]. fold lv.
+           replace il with false by (unfold il; destruct rest; [congruence|reflexivity]).
+           rewrite zget_fill by (unfold zlen in *; rewrite ?map_length, ?pyset_length; lia).
+           replace ((b_alloc st + 1 <=? start + 1 + Z.of_nat k) &&
+                    (start + 1 + Z.of_nat k <? b_alloc st + 1 + zlen (map (fun e0 => snd (snd e0)) lv)))
+             with true by (unfold zlen in *; rewrite map_length; lia).
+           replace (Z.to_nat (start + 1 + Z.of_nat k - (b_alloc st + 1))) with k by lia.
+           apply (nth_map_error (fun e0 => snd (snd e0))). exact Hk.
+      * cbn [bufs_of logps offsets]. split; [lia|]. split; [intros Hr; specialize (HstO' Hr); lia|].
+        intros Hr. specialize (HstO'' Hr). lia.
+      * exact HLev.
+    + intros q Hq. rewrite Fo by lia. rewrite Hoffs.
+      replace ((Lpos <=? q) && (q <=? start)) with false by lia. reflexivity.
+    + intros q Hq. rewrite Fi by lia. unfold st1, level_result. cbn [b_ids]. fold lv.
+      rewrite zget_fill by (unfold zlen in *; rewrite ?map_length; lia).
+      replace ((b_alloc st + 1 - U <=? q) && (q <? b_alloc st + 1 - U + zlen (map (fun e0 => last (fst e0) 0) lv)))
+        with false by lia. reflexivity.
+    + intros q Hq. rewrite Fp by lia. unfold st1, level_result. cbn [b_lps]. fold lv.
+      rewrite zget_fill by (unfold zlen in *; rewrite ?map_length, ?pyset_length; lia).
+      replace ((b_alloc st + 1 <=? q) && (q <? b_alloc st + 1 + zlen (map (fun e0 => fst (snd e0)) lv)))
+        with false by lia.
+      apply zget_pyset_other; lia.
+    + intros q Hq. rewrite Fb by lia. unfold st1, level_result. cbn [b_lbs]. fold lv.
+      assert (Hil : il = true \/ (il = false /\ rest <> [])).
+      { unfold il. destruct rest; [left; reflexivity|right; split; [reflexivity|discriminate]]. }
+      destruct Hil as [E|[E Hr]]; rewrite E.
+      * apply zget_pyset_other; lia.
+      * specialize (HstO' Hr).
+        rewrite zget_fill by (unfold zlen in *; rewrite ?map_length, ?pyset_length; lia).
+        replace ((b_alloc st + 1 <=? q) && (q <? b_alloc st + 1 + zlen (map (fun e0 => snd (snd e0)) lv)))
+          with false by lia.
+        apply zget_pyset_other; lia.
+Qed.
